@@ -40,6 +40,11 @@ def gen_cases(tier, seed):
                     continue        # one large-last-resource configuration (long copies) is enough
                 i += 1
                 yield {'family': fmt, 'sizes': sz, 'format': fmt, 'pretty': pretty, 'idx': i, 'seed': seed, 'tier': tier}
+    # a later step that stops reading every resource after two rows: the descriptor still implies complete data files
+    for fmt in ('csv', 'json'):
+        i += 1
+        yield {'family': fmt, 'sizes': [5, 1, 200], 'format': fmt, 'pretty': True, 'idx': i, 'seed': seed, 'tier': tier,
+               'early_stop': True}
     # add_filehash_to_path (with and without the resource-hash counter): the listed path must be the written one
     for fmt in ('csv', 'json'):
         for nohash in (False, True):
@@ -56,7 +61,8 @@ def run_case(case):
     viol = []
     scratch = os.getcwd()
     cfg = {'sizes': case['sizes'], 'format': case['format'], 'pretty': case['pretty'],
-           'add_filehash_to_path': bool(case.get('filehash')), 'no_resource_hash': bool(case.get('no_resource_hash'))}
+           'add_filehash_to_path': bool(case.get('filehash')), 'no_resource_hash': bool(case.get('no_resource_hash')),
+           'later_step_stops_reading_early': bool(case.get('early_stop'))}
     F = [{'name': 'id', 'type': 'integer'}, {'name': 't', 'type': 'string'}, {'name': 'n', 'type': 'number'}]
     tables = [[{'id': r * 1000 + i, 't': 'żółć-%d "q", x' % i, 'n': 1.5 * i} for i in range(n)]
               for r, n in enumerate(case['sizes'])]
@@ -75,6 +81,12 @@ def run_case(case):
         if case.get('no_resource_hash'):
             kw['counters'] = {'resource-hash': None}
         steps.append(d.dump_to_path(out, format=case['format'], pretty_descriptor=case['pretty'], **kw))
+        if case.get('early_stop'):
+            import itertools
+
+            def first_two(rows):
+                return itertools.islice(rows, 2)
+            steps.append(first_two)
         o = lab.run(steps, validate=True)
         return {'ok': o.ok, 'error': None if o.ok else o.errstr()}
 
